@@ -228,7 +228,7 @@ ALSO = {
     "C12": " Also: classically controlled sub-circuits, key maps that re-point control keys, tags at every depth, symbolic / replaced "
            "repetition counts after arbitrary earlier queries, repeat-of-repeat id order and records, parent paths, conditions on earlier records of a repeated key (index / bit mask), confusion maps inside blocks.",
     "C13": " Also: multi-qubit CliffordGate on arbitrary positions of a larger register, every integer power; the state classes as values (copy isolation, collapsing and non-collapsing measurement).",
-    "C14": " Also: cirq.work.measure_observables on eigenstates (exact sampled means, both groupings, readout symmetrisation); one PauliSum through a history of in-place edits with queries in between.",
+    "C14": " Also: cirq.work.measure_observables on eigenstates (exact sampled means, both groupings, readout symmetrisation); one PauliSum through a history of in-place edits with queries in between; Sampler.sample_expectation_values; single-qubit Pauli combinations raised to integer powers (pow_pauli_combination, LinearCombinationOfGates).",
     "C15": " Also: the parameterized sqrt-iSWAP decompositions resolved at special values; the known-gate Sycamore table probed with whole-number and negative powers.",
     "C16": " Also: zero / huge bitmasks, string tags spelling qubit ids, comparison aware of 32-bit literals and of gate value equality.",
     "C17": " Also: echo operations (an earlier operation repeated with one parameter changed); Cirq's own unitary of the submitted circuit against the same reference.",
